@@ -20,6 +20,7 @@ R17.9 transaction discipline of the annotation dbs: every data-changing statemen
 R17.11 from_dict drops the serialised `source` before building the db that receives the records.
 R17.12 the GenBank loader iterates over every parsed record.
 R17.13 the per-table loop of the aggregate methods has no return/break: every table is visited.
+R17.14 an attributes condition means 'contains the fragment' for counts and queries alike (wrapped before every SQL builder call); R17.3 also sweeps for unaudited row builders.
 """
 
 from __future__ import annotations
